@@ -635,6 +635,11 @@ fn exec(sc: &Scenario, dir: &Path) -> RunResult {
                 } else {
                     None
                 };
+                let guard = if io_error_seen { index_guard(ff.number().saturating_sub(1)) } else { Ok(()) };
+                if let Err(d) = guard {
+                    cx.viol("corrupt_index:retrieve", d);
+                    continue;
+                }
                 match ff.retrieve(*item) {
                     Ok(got) if got == want => {}
                     Ok(got) => cx.viol(
